@@ -75,6 +75,11 @@ def jobs(tier, seed):
             if cand:
                 c2["g"].append({k: 2 * v for k, v in cand[0].items()})
         out.append({"kind": f"{w}:{mode}", "iface": w, "c1": c1, "c2": c2, "share": share})
+    # a merge performed right after the merge of an almost identical pair (gain 2 vs 2.0004): no stale results
+    for gain in (2.0004, 1.9996):
+        first = {"c1": {"in": ["x"], "out": ["y"], "a": [{"x": -1}, {"x": 2, "w": -1}][:1], "g": [{"y": 1, "x": -2}]}, "c2": {"in": ["x"], "out": ["y"], "a": [{"x": 1}], "g": [{"y": 1, "x": -2}, {"y": -1}]}}
+        second = {"c1": {"in": ["x"], "out": ["y"], "a": [{"x": -1}], "g": [{"y": 1, "x": -gain}]}, "c2": {"in": ["x"], "out": ["y"], "a": [{"x": 1}], "g": [{"y": 1, "x": -2}, {"y": -1}]}}
+        out.append({"kind": "same:sequence", "iface": "same", "first": first, "share": [], **second, "conc": {"pa0": 0, "pg0": 0, "qa0": 1000, "qg0": 0, "qg1": 0}})
     return out
 
 
@@ -99,6 +104,14 @@ def both(tl1, tl2):
 
 def run(ctx, job):
     ctx.tag("iface:" + job["iface"])
+    if "first" in job:
+        # warm-up merge of the almost identical pair
+        ctx = B.Pinned(ctx, job["conc"])
+        try:
+            w1, w2 = build(ctx, dict(job["first"], share=[]))
+            w1.merge(w2)
+        except ValueError:
+            pass
     c1, c2 = build(ctx, job)
     try:
         r = c1.merge(c2)
